@@ -768,6 +768,15 @@ func (v *FnV) spCall(st *State, e *SExpr, sc *Scope) Value {
 		a := arg(0)
 		n, d := arg(1), arg(2)
 		return Value{T: tBool, S: sEq(sx("*", v.bigRat(st, a.S), sx("to_real", d.S)), sx("to_real", n.S))}
+	case "allocated":
+		// the pointer refers to an object that exists now (nil included): ref <= current allocation counter
+		return Value{T: tBool, S: sLe(arg(0).S, st.alloc)}
+	case "stroff":
+		// absolute offset of a string in its backing array (two strings with the same backing array and
+		// adjacent offsets are adjacent pieces of one string)
+		return Value{T: nil, S: sx("soff", arg(0).S)}
+	case "samebase":
+		return Value{T: tBool, S: sEq(sx("sbase", arg(0).S), sx("sbase", arg(1).S))}
 	case "samekey":
 		// two strings are the same map key, i.e. have equal contents (skey is injective on contents)
 		v.c.glob("skey", "(declare-fun skey (Str) Int)",
